@@ -161,6 +161,20 @@ Check(e) ==
                  ELSE IF cs.err.l1 > 0 /\ ~(e.line >= cs.err.l1 /\ e.line <= cs.err.l2)
                       THEN "wrong-line:" \o cs.err.kind
                  ELSE ""
+      [] e.ev = "Diag" ->
+            \* what the command line prints for a rejected schema: "error: <file>:L<line> <token> => ..." cites the
+            \* file of the offending declaration and a line within it (C20)
+            IF cs.status = "rejected" /\ cs.err.kind = "out-of-model" THEN "skip:out-of-model"
+            ELSE IF amb THEN "skip:ambiguous-dotted-path"
+            ELSE IF cs.status = "accepted" THEN (IF e.nerr > 0 THEN "error-printed-for-a-valid-schema" ELSE "")
+            ELSE IF cs.err.kind = "unreadable-import" THEN (IF e.exit = 0 THEN "zero-exit-on-invalid" ELSE "")
+            ELSE IF e.exit = 0 THEN "zero-exit-on-invalid"
+            ELSE IF e.traceback THEN "traceback"
+            ELSE IF ~e.cited THEN "diagnostic-cites-no-file-and-line:" \o cs.err.kind
+            ELSE IF e.file # cs.err.file THEN "diagnostic-wrong-file:" \o cs.err.kind
+            ELSE IF cs.err.l1 > 0 /\ ~(e.line >= cs.err.l1 /\ e.line <= cs.err.l2)
+                 THEN "diagnostic-wrong-line:" \o cs.err.kind
+            ELSE ""
       [] e.ev = "Pos" ->
             \* the recorded line, column and indent of a definition's name (C20)
             With(DefIn(e.file, e.path), LAMBDA d :
@@ -196,7 +210,9 @@ Check(e) ==
             ELSE IF ~e.same_outputs THEN "lint-changes-output" ELSE ""
       [] e.ev = "CliRun" ->
             \* one run of the command line with configuration e.cfg (C17)
-            LET cfg == [lang |-> e.cfg.lang, O |-> e.cfg.O, F |-> {e.cfg.F[x] : x \in 1..Len(e.cfg.F)},
+            LET cfg == [lang |-> e.cfg.lang, O |-> e.cfg.O,
+                        F |-> IF "Ftoks" \in DOMAIN e.cfg THEN FilterNames(e.cfg.Ftoks)
+                              ELSE {e.cfg.F[x] : x \in 1..Len(e.cfg.F)},
                         useF |-> e.cfg.useF, check |-> e.cfg.check]
                 ds == tr.files[tr.main].decls
                 names == {ds[x].name : x \in {y \in 1..Len(ds) : ds[y].d = "openMsg"}}
